@@ -332,6 +332,22 @@ def check_main_order(chk):
             p.returncode, os.path.exists(os.path.join(d, 'solstat_report.md'))), {'job': 'solstat', 'observed': p.stderr[-300:]})
     else:
         chk.ok()
+    # the configured path is used as written (letter case, blanks)
+    os.makedirs(os.path.join(d, 'Src', 'My Contracts'))
+    os.makedirs(os.path.join(d, 'src', 'my contracts'))
+    open(os.path.join(d, 'Src', 'My Contracts', 'Wanted.sol'), 'w').write('pragma solidity ^0.8.0;\ncontract A { function f(uint a) public { a + 1; } }\n')
+    open(os.path.join(d, 'src', 'my contracts', 'Other.sol'), 'w').write('pragma solidity ^0.8.0;\ncontract B { function f(uint a) public { a + 1; } }\n')
+    open(os.path.join(d, 'cfg2.toml'), 'w').write('path = "./Src/My Contracts"\noptimizations = ["solidity_math"]\nvulnerabilities = []\nqa = []\n')
+    p = subprocess.run([os.path.join(chk.world.build, 'solstat'), '--toml', 'cfg2.toml'], cwd=d, stdout=subprocess.PIPE, stderr=subprocess.PIPE, text=True)
+    rep = open(os.path.join(d, 'solstat_report.md')).read() if os.path.exists(os.path.join(d, 'solstat_report.md')) else ''
+    chk.validated += 1
+    if p.returncode != 0 or '- Wanted.sol:2' not in rep or 'Other.sol' in rep:
+        chk.violation('main:toml-path-as-written', 'solstat --toml with path = "./Src/My Contracts" (a lower-case sibling directory exists): exit %d, report lists %r' % (
+            p.returncode, re.findall(r'^- (\S+\.sol):', rep, re.M)[:4]), {'job': 'solstat', 'report': rep[:300], 'stderr': p.stderr[-300:]})
+    else:
+        chk.ok()
+    if os.path.exists(os.path.join(d, 'solstat_report.md')):
+        os.remove(os.path.join(d, 'solstat_report.md'))
     # and a good configuration selects exactly the listed patterns, in the configured directory
     open(os.path.join(d, 'cfg.toml'), 'w').write('path = "contracts"\noptimizations = ["SOLIDITY_MATH"]\nvulnerabilities = ["Floating_Pragma"]\nqa = []\n')
     p = subprocess.run([os.path.join(chk.world.build, 'solstat'), '--toml', 'cfg.toml'], cwd=d, stdout=subprocess.PIPE, stderr=subprocess.PIPE, text=True)
